@@ -271,6 +271,57 @@ func execC14(c CaseC14) *Outcome {
 		} else {
 			opened = append(opened, sl)
 		}
+		// the typed helpers (Log / KeyValue / Docs): the matching one opens the database, another one is refused
+		typed := func(db orbitdb.OrbitDB, typ, target string, opt *orbitdb.CreateDBOptions) (iface.Store, error) {
+			switch typ {
+			case "eventlog":
+				st, err := db.Log(ctx, target, opt)
+				if err != nil {
+					return nil, err
+				}
+				return st, nil
+			case "keyvalue":
+				st, err := db.KeyValue(ctx, target, opt)
+				if err != nil {
+					return nil, err
+				}
+				return st, nil
+			default:
+				st, err := db.Docs(ctx, target, opt)
+				if err != nil {
+					return nil, err
+				}
+				return st, nil
+			}
+		}
+		other := map[string]string{"eventlog": "keyvalue", "keyvalue": "docstore", "docstore": "eventlog"}[t.Type]
+		if st, err := typed(w.Peers[2].DB, t.Type, addrA.String(), &orbitdb.CreateDBOptions{Replicate: &no}); err != nil {
+			return fail("the %s helper refused to open %s, a %s database: %v", t.Type, addrA, t.Type, err)
+		} else {
+			opened = append(opened, st)
+			if st.Type() != t.Type || st.Address().String() != addrA.String() {
+				return fail("the %s helper on %s returned a %s store at %s", t.Type, addrA, st.Type(), st.Address())
+			}
+		}
+		if st, err := typed(w.Peers[2].DB, other, addrA.String(), &orbitdb.CreateDBOptions{Replicate: &no}); err == nil {
+			opened = append(opened, st)
+			return fail("the %s helper opened %s, which was created as a %s database (got a %s store)", other, addrA, t.Type, st.Type())
+		}
+		// a helper given a name creates the database at the address DetermineAddress computes for it
+		hname := name + "-h"
+		if address.IsValid(hname) != nil {
+			if want, err := a.DetermineAddress(ctx, hname, t.Type, opts()); err == nil {
+				st, err := typed(a, t.Type, hname, &orbitdb.CreateDBOptions{AccessController: acFor(t), Replicate: &no})
+				if err != nil {
+					return fail("the %s helper refused to create %q although DetermineAddress accepts the name: %v", t.Type, hname, err)
+				}
+				opened = append(opened, st)
+				o.Labels = append(o.Labels, "created-by-typed-helper")
+				if st.Address().String() != want.String() || st.Type() != t.Type {
+					return fail("the %s helper created %q at %s (%s), DetermineAddress said %s", t.Type, hname, st.Address(), st.Type(), want)
+				}
+			}
+		}
 		if special {
 			o.NonTrivial = true
 			o.Labels = append(o.Labels, "special-name-accepted")
